@@ -7,8 +7,8 @@ typedef TranspositionTable TT;
 typedef TranspositionTable::TTEntry TTEntry;
 typedef TranspositionTable::TTEntryStorage TTES;
 
-alignas(64) static unsigned char ttmem[sizeof(TranspositionTable)];
-static TT& rawTT() { return *reinterpret_cast<TT*>(ttmem); }
+static RawBox<TranspositionTable> ttBox;
+static TT& rawTT() { return ttBox.obj; }
 
 // Bucket-level obligations run on a 16-slot table (4 buckets).  getIndex is replaced there by
 // model_getIndex, *a* function with the contract O1 proves for the real one (4-aligned, whole
